@@ -534,3 +534,200 @@ def h_share_trunc(ws: int, wl: int, ns: int, nl: int, size: int, fail_read: bool
     fr = True if fail_read else False
     no = M.pick([0, 1, 2], nobs)
     return M.run_concrete(_trunc_check, a[0], a[1], a[2], a[3], sz, fr, no)
+
+
+# =====================================================================================================
+# (a) every CommonShare must become authoritative, whatever the order of "share number first seen" and
+#     "UEB validated"   (real ShareFinder._create_share / update_num_segments / CommonShare)
+# (b) a Share that did not validate the UEB itself must desire the block at the writer's offset for the
+#     REAL block size   (real Share.__init__/_guess_offsets/get_block/_desire/_desire_data)
+# =====================================================================================================
+from allmydata.immutable.downloader import finder as FI
+from allmydata.immutable.downloader import node as ND
+from allmydata.immutable.downloader.share import CommonShare
+from allmydata.immutable import layout as LAY
+from allmydata.hashtree import IncompleteHashTree
+
+FI.eventually = _eventually
+hlib.encoded(FI.ShareFinder._create_share, FI.ShareFinder.update_num_segments, CommonShare.__init__, CommonShare.set_authoritative_num_segments,
+             CommonShare.set_block_hash_root, CommonShare.get_needed_block_hashes, CommonShare.need_block_hash_root,
+             ND.DownloadNode.get_num_segments, ND.DownloadNode._calculate_sizes, ND.DownloadNode.get_desired_ciphertext_hashes,
+             Share.__init__, Share._guess_offsets, Share._desire, Share._desire_data, Share._desire_block_hashes,
+             Share._desire_share_hashes, Share._desire_UEB, Share._desire_offsets)
+NOTES.append("commonshare_authoritative: finder.Share is replaced (for the call) by a recorder that keeps the CommonShare it was given; 'UEB validated' is modelled as "
+             "node.num_segments := real value followed by the real ShareFinder.update_num_segments() (the last two steps of DownloadNode.validate_and_store_UEB)")
+NOTES.append("desire_real_geometry: the node's real geometry (segment_size, num_segments, block sizes, have_UEB, hash trees of the real size) is stored as "
+             "_parse_and_store_UEB would after ANOTHER share validated the UEB; the share's actual_offsets are the real writer's offset table (layout.make_write_bucket_proxy)")
+
+
+def _pickv(values, v):
+    """the concrete member of `values` equal to the symbolic v (if-chain: one fork per value)"""
+    for x in values:
+        if v == x:
+            return x
+    raise AssertionError("value out of range")
+
+
+class _RecShare(object):
+    made = []
+
+    def __init__(self, rref, server, verifycap, commonshare, node, download_status, shnum, dyhb_rtt, logparent):
+        self.cs = commonshare
+        self.shnum = shnum
+        _RecShare.made.append(self)
+
+
+def _cs_check(guess, real, events):
+    """events: list of ints; -1 = the UEB is validated now; s >= 0 = a DYHB answer announces share number s."""
+    nd = ND.DownloadNode.__new__(ND.DownloadNode)
+    nd.num_segments = None
+    nd.guessed_num_segments = guess
+    fd = FI.ShareFinder.__new__(FI.ShareFinder)
+    fd.node = nd
+    fd._commonshares = {}
+    fd._si_prefix = "si"
+    fd._node_logparent = None
+    fd.verifycap = hlib.NS(storage_index=b"x" * 16)
+    fd._download_status = None
+    saved = FI.Share
+    FI.Share = _RecShare
+    _RecShare.made = []
+    try:
+        validated = False
+        for i, e in enumerate(events):
+            if e < 0:
+                nd.num_segments = real
+                FI.ShareFinder.update_num_segments(fd)
+                validated = True
+            else:
+                FI.ShareFinder._create_share(fd, e, object(), hlib.NS(sid=i), 0.0)
+    finally:
+        FI.Share = saved
+    by_num = {}
+    for sh in _RecShare.made:
+        if sh.cs.shnum != sh.shnum:
+            return "share %d was given the CommonShare of share %d" % (sh.shnum, sh.cs.shnum)
+        if by_num.setdefault(sh.shnum, sh.cs) is not sh.cs:
+            return "two shares with number %d do not have the same CommonShare" % sh.shnum
+        if fd._commonshares.get(sh.shnum) is not sh.cs:
+            return "CommonShare not registered with the finder"
+    for shnum, cs in by_num.items():
+        if validated:
+            if not cs._block_hash_tree_is_authoritative:
+                return ("the UEB has been validated (%d segments) but the CommonShare of share %d is not authoritative: the first "
+                        "set_block_hash_root() would assert and a good share would be abandoned" % (real, shnum))
+            if cs._block_hash_tree_leaves != real or len(cs._block_hash_tree) != len(IncompleteHashTree(real)):
+                return "block hash tree of share %d is sized for %d segments, the file has %d" % (shnum, cs._block_hash_tree_leaves, real)
+            try:
+                cs.set_block_hash_root(b"r" * 32)
+                cs.get_needed_block_hashes(real - 1)
+            except AssertionError:
+                return "CommonShare of share %d refuses its block hash root after the UEB is known" % shnum
+        else:
+            if cs._block_hash_tree_is_authoritative or cs._block_hash_tree_leaves != guess:
+                return "before the UEB is known the CommonShare must carry the guessed size, non-authoritative"
+    return True
+
+
+def h_commonshare(guess: int, real: int, n: int, e0: int, e1: int, e2: int, e3: int) -> bool:
+    """
+    pre: 1 <= guess <= B.get("NSEGMAX", 3) and 1 <= real <= B.get("NSEGMAX", 3)
+    pre: 1 <= n <= 4 and -1 <= e0 <= 2 and -1 <= e1 <= 2 and -1 <= e2 <= 2 and -1 <= e3 <= 2
+    pre: (n > 1 or e1 == 0) and (n > 2 or e2 == 0) and (n > 3 or e3 == 0)
+    pre: B.get("real") is None or real == B.get("real")
+    post: _ == True
+    """
+    vals = list(range(1, int(B.get("NSEGMAX", 3)) + 1))
+    g = _pickv(vals, guess)
+    r = _pickv(vals, real)
+    nn = _pickv([1, 2, 3, 4], n)
+    evs = [_pickv([-1, 0, 1, 2], e) for e in (e0, e1, e2, e3)][:nn]
+    assume(len([e for e in evs if e < 0]) <= 1)       # the UEB is validated at most once per node
+    return M.run_concrete(_cs_check, g, r, evs)
+
+
+class _VServer(object):
+    def get_version(self):
+        return {b"http://allmydata.org/tahoe/protocols/storage/v1": {b"tolerates-immutable-read-overrun": True}}
+
+    def get_name(self):
+        return b"srvV"
+
+
+def _desire_check(k, mg, mr, size, segnum, N):
+    del _QUEUE[:]
+    guess_seg = k * mg
+    real_seg = k * mr
+    # ---- independent arithmetic for the writer's layout --------------------------------------------
+    numsegs = (size + real_seg - 1) // real_seg
+    if segnum >= numsegs:
+        return "SKIP"
+    bs = real_seg // k
+    tail = size - (numsegs - 1) * real_seg
+    tail_bs = (tail + k - 1) // k
+    blocklen = tail_bs if segnum == numsegs - 1 else bs
+    data_size = (numsegs - 1) * bs + tail_bs
+    # ---- a fresh Share, created while the node is still guessing ----------------------------------------
+    nd = ND.DownloadNode.__new__(ND.DownloadNode)
+    nd._verifycap = hlib.NS(size=size, needed_shares=k, total_shares=N, storage_index=b"x" * 16)
+    nd.segment_size = None
+    nd.num_segments = None
+    nd.guessed_segment_size = guess_seg
+    nd.have_UEB = False
+    gsegs = (size + guess_seg - 1) // guess_seg
+    cs = CommonShare(gsegs, "si", 0, None)
+    sh = Share(object(), _VServer(), nd._verifycap, cs, nd, _ShareDS(), 0, 0.0, None)
+    # ---- another share validates the UEB: the node learns the real geometry -----------------------------
+    r = nd._calculate_sizes(real_seg)
+    nd.segment_size = real_seg
+    nd.num_segments = r["num_segments"]
+    nd.block_size = r["block_size"]
+    nd.tail_block_size = r["tail_block_size"]
+    nd.tail_segment_size = r["tail_segment_size"]
+    nd.tail_segment_padded = r["tail_segment_padded"]
+    nd.have_UEB = True
+    nd.share_hash_tree = IncompleteHashTree(N)
+    nd.ciphertext_hash_tree = IncompleteHashTree(nd.num_segments)
+    nd.ciphertext_hash_tree_leaves = nd.num_segments
+    cs.set_authoritative_num_segments(nd.num_segments)
+    if nd.num_segments != numsegs:
+        raise hlib.HarnessError("segment count model disagrees with _calculate_sizes")
+    # the share has read its (real) offset table
+    nsh = len(IncompleteHashTree(N).needed_hashes(0, include_leaf=True))
+    wbp = LAY.make_write_bucket_proxy(None, None, data_size, bs, numsegs, nsh, 100)
+    sh.actual_offsets = dict(wbp._offsets)
+    sh._fieldsize = wbp.fieldsize
+    sh._fieldstruct = wbp.fieldstruct
+    Share.get_block(sh, segnum)
+    (want, need) = Share._desire(sh)
+    data0 = wbp._offsets["data"]
+    block = Spans(data0 + segnum * bs, blocklen)
+    # block data plus the (unused) plaintext-hash-tree area behind it: nothing else is ever desired there, so a block
+    # request that is too long or misplaced shows up here
+    region = Spans(data0, wbp._offsets["crypttext_hash_tree"] - data0)
+    got = (need + want) & region
+    if got.dump() != block.dump():
+        return ("k=%d file=%d real segsize=%d (guess %d) segment %d: the share desires %s of the block-data region, the writer put the block at %s"
+                % (k, size, real_seg, guess_seg, segnum, got.dump(), block.dump()))
+    if (need & block).dump() != block.dump():
+        return "the block span is only 'wanted', not 'needed', although the offsets are known"
+    return True
+
+
+def h_desire(k: int, mg: int, mr: int, size: int, segnum: int) -> bool:
+    """
+    pre: 1 <= k <= 3 and 1 <= mg <= B.get("MMAX", 3) and 1 <= mr <= B.get("MMAX", 3)
+    pre: 1 <= size <= B.get("SIZEMAX", 16) and 0 <= segnum <= B.get("SEGMAX", 3)
+    pre: B.get("k") is None or k == B.get("k")
+    post: _ == True
+    """
+    mm = list(range(1, int(B.get("MMAX", 3)) + 1))
+    kk = _pickv([1, 2, 3], k)
+    g = _pickv(mm, mg)
+    r = _pickv(mm, mr)
+    sz = _pickv(list(range(1, int(B.get("SIZEMAX", 16)) + 1)), size)
+    sn = _pickv(list(range(int(B.get("SEGMAX", 3)) + 1)), segnum)
+    assume(sn * kk * r < sz)            # the segment exists in the real file
+    res = M.run_concrete(_desire_check, kk, g, r, sz, sn, 4)
+    assume(res != "SKIP")
+    return res
